@@ -47,7 +47,7 @@ PROPS['C19'] = dict(
          'client case (1 in 62) = real client against the scripted reference server issuing any 32-bit challenge incl. >= 2^31, 0 and '
          '0xffffffff: L message = hash(challenge), raw login = hash(challenge+1 mod 2^32), client enters raw mode after hash(challenge-1). '
          'non-trivial iff password non-empty (unit) / all frames observed (system, client); distinct = hash of choice tape',
-    engine_text='rapidcheck over choice tapes; unit shape + simnet (real iodine + iodined); passwords via -P or the environment, with % sequences; lost raw login replies (client repeats, server must answer again)',
+    engine_text='rapidcheck over choice tapes; unit shape + simnet (real iodine + iodined); passwords via -P or the environment, with % sequences; lost raw login replies (client repeats, server must answer again); password typed at the prompt (read_password on a replaced stdin); cut raw login after a complete one',
     bounds='password <= 40 bytes, 32-bit challenges sampled (boundary values always included)',
     trusted_base=TB_SIM + ['refmd5 self-tested against the RFC 1321 vectors at start-up'],
     assumptions=AS_SIM + ['MD5 collisions (2^-128) ignored'],
@@ -124,7 +124,7 @@ PROPS['C01'] = dict(
          'only, black-outs) for 1..40 virtual s, then a clean drain. Oracle: every tun write equals a packet read earlier '
          'from the tun device of a different instance. non-trivial iff the handshake completed, >=1 delivered packet needed '
          '>=2 fragments and >=1 fault decision hit; distinct = hash of the choice tape',
-    engine_text='rapidcheck over choice tapes; simnet hosting real iodined + real iodine clients; ASan+UBSan',
+    engine_text='rapidcheck over choice tapes; simnet hosting real iodined + real iodine clients; ASan+UBSan; crafted adversarial packets (zlib stream of another packet at the second fragment\'s offset inside an incompressible packet)',
     bounds='<= 3 clients, <= 30 offers, packets <= 6000+24 bytes, <= 40 virtual s of faults, delays <= 3 s',
     trusted_base=TB_SIM,
     assumptions=AS_SIM + ['a mis-assembled packet passing zlib Adler-32 (2^-32) cannot be generated on purpose'],
@@ -157,7 +157,7 @@ PROPS['C09'] = dict(
          '2..4096 with contents {random, ff.., 00.., fragment-probe pattern, DOWNCODECCHECK1}: the server answer writer '
          '(write_dns) output is fed to the client reply reader (read_dns_withq); outcome must be exact, nothing or a proper '
          'prefix; exact lengths must form an initial segment per configuration and content; the outcome (class and number of bytes) must be the same for the three '
-         'query-name lengths (fitting is a matter of the answer format, not of the echoed question); random cases add arbitrary '
+         'query-name lengths (fitting is a matter of the answer format, not of the echoed question); when the independent reference decoder extracts the whole payload from the server answer and the length is within the calibrated client capacity of that format, the client must deliver it exactly; random cases add arbitrary '
          'contents/ids. non-trivial iff the payload needs >= 2 TXT strings / >= 2 MX-SRV records / a dotted name, or lies '
          'within 2 of the largest exact length',
     exhaustive_text='thorough: every length 2..4096 x 5 contents x all 210 configurations; quick: lengths 2..320 + windows at '
@@ -166,7 +166,7 @@ PROPS['C09'] = dict(
     bounds='payload 2..4096 bytes',
     trusted_base=TB_COMMON + ['glue/glue_server.c and glue/glue_client.c: textual inclusion of iodined.c / client.c; depend on the '
                               'signatures of write_dns and read_dns_withq', 'sim capture/feed of sendto/recvfrom'],
-    assumptions=['Lmax floors (100 bytes for one hostname, 1000 otherwise) calibrated on the unchanged tree'],
+    assumptions=['Lmax floors (100 bytes for one hostname, 1000 otherwise) and the table of client buffer capacities per (type, codec, caller buffer) used by the fits-but-not-delivered oracle are calibrated on the unchanged tree'],
 )
 
 SES_RULE = ('case = real iodined (query type NULL/PRIVATE/TXT/SRV/MX/CNAME/A, tunnel domain) + scripted sessions speaking protocol 0x00000502 '
@@ -183,8 +183,8 @@ PROPS['C15'] = dict(
          'sizes < 2 are answered BADFRAG; per packet fragment numbers are 0,1,2,.. each increment preceded by a matching acknowledgement; the '
          'last-fragment flag is set exactly on the fragment that completes the compressed packet the server read from its tun device. '
          'non-trivial iff a packet needed >= 3 fragments and a size was set by an accepted N request',
-    engine_text='rapidcheck over choice tapes; simnet hosting the real iodined; scripted sessions (refproto); ASan+UBSan',
-    bounds='1 session, <= 60 actions, packets <= 20000 bytes; numbering judged for packets that fit 16 fragments',
+    engine_text='rapidcheck over choice tapes; simnet hosting the real iodined; scripted sessions (refproto); ASan+UBSan; up to 2 sessions with client-to-client packets',
+    bounds='<= 2 sessions, <= 60 actions, packets <= 20000 bytes; numbering judged for packets that fit 16 fragments',
     trusted_base=TB_SIM, assumptions=AS_SIM + ['zlib level-9 output is deterministic (the harness recomputes the compressed form of every packet the server read)'],
 )
 PROPS['C14'] = dict(
@@ -196,7 +196,7 @@ PROPS['C14'] = dict(
          'answer the server emits must consume one unanswered matching credit; after every server step at most two distinct ping/data '
          'questions per session are unanswered. non-trivial iff a remembered duplicate of a pending query was answered together with the '
          'original, or a pending query was re-delivered while two queries were held',
-    engine_text='rapidcheck over choice tapes; simnet hosting the real iodined; scripted sessions (refproto); wire monitor',
+    engine_text='rapidcheck over choice tapes; simnet hosting the real iodined; scripted sessions (refproto); wire monitor; handshake-type requests mid-session',
     bounds='<= 3 sessions, <= 60 actions', trusted_base=TB_SIM, assumptions=AS_SIM + ['without -b (forwarded replies are C20)'],
 )
 PROPS['C16'] = dict(
@@ -337,7 +337,7 @@ PROPS['C05'] = dict(
          'active within 58 s sends a fresh one-fragment packet: written unchanged to the server tun device and acknowledged in a well-formed answer. Steps that '
          'may legitimately act for an honest session (its own address; a correct raw login; anything when source checking is off) are excluded by construction. '
          'non-trivial iff the server answered a hostile source, or a raw frame / short tun packet was processed',
-    engine_text='rapidcheck over choice tapes (and the same case function under libFuzzer, see fuzz tier); simnet hosting the real iodined; ASan+UBSan',
+    engine_text='rapidcheck over choice tapes (and the same case function under libFuzzer, see fuzz tier); simnet hosting the real iodined; ASan+UBSan; bare command letters from session addresses',
     bounds='<= 3 honest + 2 sacrificial sessions, <= 24 hostile steps, <= 40 virtual s', trusted_base=TB_SIM,
     assumptions=AS_SIM + ['uninitialised reads are not detectable (no MSan-instrumented C++ runtime here)'],
 )
@@ -384,7 +384,7 @@ PROPS['C12'] = dict(
          '(real iodined, sessions, hostile history, health probe) or C06 scenario (real iodine client vs scripted server with hostile reply policy) executed twice '
          'from reset: every datagram the real program sends (exact bytes), every tun write, every system() string and the exit status must be equal. '
          'non-trivial iff the case contains a residue-sensitive shape (cut / truncated / pointer / past-end / unterminated / RDLENGTH lie / TXT overrun / boundary datagram)',
-    engine_text='rapidcheck over choice tapes + libFuzzer; differential execution over receive-buffer residues (simnet fills [n, capacity) of every recv buffer); unit shape for dns_decode',
+    engine_text='rapidcheck over choice tapes + libFuzzer; differential execution over receive-buffer residues (simnet fills [n, capacity) of every recv buffer); unit shape for dns_decode; server scenario 1 in 3 with perturbed history (echo requests of different text before every step)',
     bounds='as C05 / C06', trusted_base=TB_SIM + ['sim/simnet.cc residue filling of recv/recvfrom/recvmsg buffers'],
     assumptions=AS_SIM + ['stale contents of buffers other than the receive buffer (uninitialised stack) are not controlled by the harness'],
 )
@@ -401,7 +401,7 @@ PROPS['C11'] = dict(
          'written to the peer tun byte-identically and in order, nothing else is written, and the client keeps running. (B): if an allowed record type exists (and a forced '
          'option itself survives the profile) the handshake must succeed. non-trivial iff the profile is not the identity and the negotiated tuple differs from '
          '(NULL, Base128, fragment >= 1000)',
-    engine_text='rapidcheck over choice tapes; simnet hosting real iodine + real iodined; relay actor built on ref/refdns.cc; 1 case in 4 with 10..15 pre-occupied slots (user number 10..15)',
+    engine_text='rapidcheck over choice tapes; simnet hosting real iodine + real iodined; relay actor built on ref/refdns.cc; 1 case in 4 with 10..15 pre-occupied slots (user number 10..15); 1 case in 5 with an earlier scripted session on slot 0 (codecs switched, data moved, silent > 60 s)',
     bounds='<= 400 virtual s of handshake, 12 packets', trusted_base=TB_SIM,
     assumptions=AS_SIM + ['only fixed (length-independent) transformations; raw UDP mode is skipped (-r) because it bypasses the DNS path the property is about'],
 )
